@@ -923,3 +923,227 @@ Proof.
   exists f17_config, (mk_offer_ 0 1 5), (mk_offer_ 2 2 5).
   vm_compute. repeat split; try reflexivity. right. right. left. reflexivity.
 Qed.
+
+Lemma no_inversion_satisfiable_l E : (forall a, e_sub E a a = true) ->
+  (forall a b c, e_sub E a b = true -> e_sub E b c = true -> e_sub E a c = true) ->
+  (forall p l, Permutation (e_order (with_order_rank E) p l) l) /\ no_inversion (with_order_rank E).
+Proof. intros R T. split; [exact (order_rank_perm E)|exact (order_rank_no_inversion E R T)]. Qed.
+
+Lemma exec_law_except_specificity c fuel a : run_api (env_of c) fuel a <> OOutOfFuel ->
+  forall code, In code (law (env_of c) a (run_api (env_of c) fuel a)) -> code = 6%Z.
+Proof. exact (model_law_except_specificity (env_of c) (env_of_order_perm c) fuel a). Qed.
+
+(* ================= CPython's insertion sort keeps the major key sorted even with a partial comparator ================= *)
+Section PySortMajor.
+  Context {A : Type}.
+  Variable lt : A -> A -> bool.
+  Variable d : A -> nat.
+  (* the comparator is lexicographic with major key d: smaller d => less, less => not larger d *)
+  Hypothesis lt_major : forall x y, d x < d y -> lt x y = true.
+  Hypothesis lt_minor : forall x y, lt x y = true -> d x <= d y.
+
+  Fixpoint dsorted (l : list A) : Prop :=
+    match l with [] => True | x :: r => (forall y, In y r -> d x <= d y) /\ dsorted r end.
+
+  Lemma dsorted_app l1 l2 : dsorted (l1 ++ l2) <->
+    dsorted l1 /\ dsorted l2 /\ (forall x y, In x l1 -> In y l2 -> d x <= d y).
+  Proof.
+    induction l1 as [|a l1 IH]; cbn.
+    - split; [intros H; repeat split; [exact H|intros x y []]|intros (_ & H & _); exact H].
+    - rewrite IH. split.
+      + intros (Ha & H1 & H2 & H12). repeat split; try assumption.
+        * intros y Hy. apply Ha. apply in_or_app. left. exact Hy.
+        * intros x y [<-|Hx] Hy; [apply Ha; apply in_or_app; right; exact Hy|apply H12; assumption].
+      + intros ((Ha & H1) & H2 & H12). repeat split; try assumption.
+        * intros y Hy. apply in_app_or in Hy. destruct Hy as [Hy|Hy]; [apply Ha; exact Hy|apply H12; [left; reflexivity|exact Hy]].
+        * intros x y Hx Hy. apply H12; [right; exact Hx|exact Hy].
+  Qed.
+
+  Lemma nth_error_split (l : list A) p x : nth_error l p = Some x ->
+    skipn p l = x :: skipn (S p) l /\ firstn (S p) l = firstn p l ++ [x].
+  Proof.
+    revert p. induction l as [|a l IH]; intros p H; [destruct p; discriminate|].
+    destruct p as [|p]; cbn in H.
+    - inversion H; subst. split; reflexivity.
+    - destruct (IH p H) as [H1 H2]. split; [exact H1|]. change (a :: firstn (S p) l = a :: (firstn p l ++ [x])). rewrite H2. reflexivity.
+  Qed.
+
+  Definition below (pivot : A) (l : list A) : Prop := forall x, In x l -> d x <= d pivot.
+  Definition above (pivot : A) (l : list A) : Prop := forall y, In y l -> d pivot <= d y.
+
+  Lemma bisect_spec fuel : forall pre pivot l r, dsorted pre -> l <= r <= length pre -> r - l < fuel ->
+    below pivot (firstn l pre) -> above pivot (skipn r pre) ->
+    let k := bisect lt fuel pre pivot l r in
+    k <= length pre /\ below pivot (firstn k pre) /\ above pivot (skipn k pre).
+  Proof.
+    induction fuel as [|f IH]; intros pre pivot l r Hs Hlr Hf Hb Ha; [lia|]. cbn [bisect].
+    destruct (Nat.ltb_spec l r) as [Hlt|Hge].
+    2:{ assert (l = r) by lia. subst. cbn. repeat split; [lia|exact Hb|exact Ha]. }
+    set (p := l + Nat.div2 (r - l)).
+    assert (l <= p < r) as Hp.
+    { unfold p. pose proof (Nat.div2_decr (r - l) (r - l - 1)). destruct (r - l) eqn:Erl; [lia|].
+      assert (Nat.div2 (S n) <= n) by (apply Nat.div2_decr; lia). lia. }
+    destruct (nth_error pre p) as [x|] eqn:Hx.
+    2:{ apply nth_error_None in Hx. lia. }
+    destruct (nth_error_split pre p x Hx) as [Hsk Hfi].
+    pose proof Hs as Hs'. rewrite <- (firstn_skipn p pre) in Hs'. apply dsorted_app in Hs'. destruct Hs' as (S1 & S2 & S12).
+    destruct (lt pivot x) eqn:L.
+    - (* pivot < pre[p]: r := p *)
+      apply IH; try assumption; [lia|lia|].
+      intros y Hy. rewrite Hsk in Hy, S2. apply lt_minor in L. destruct Hy as [<-|Hy]; [exact L|].
+      destruct S2 as [Sx _]. specialize (Sx y Hy). lia.
+    - (* l := p + 1 *)
+      apply IH; try assumption; [lia|lia|].
+      intros y Hy. rewrite Hfi in Hy. apply in_app_or in Hy.
+      assert (d x <= d pivot) as Hxp'.
+      { destruct (Nat.le_gt_cases (d x) (d pivot)) as [H|H]; [exact H|]. rewrite (lt_major _ _ H) in L. discriminate. }
+      destruct Hy as [Hy|[<-|[]]]; [|exact Hxp'].
+      assert (d y <= d x) by (apply S12; [exact Hy|rewrite Hsk; left; reflexivity]). lia.
+  Qed.
+
+  Lemma insert_at_dsorted pre k pivot : dsorted pre ->
+    below pivot (firstn k pre) -> above pivot (skipn k pre) -> dsorted (insert_at pre k pivot).
+  Proof.
+    intros Hs Hb Ha. unfold insert_at. rewrite <- (firstn_skipn k pre) in Hs. apply dsorted_app in Hs.
+    destruct Hs as (S1 & S2 & S12). apply dsorted_app. split; [exact S1|]. split.
+    - cbn. split; [exact Ha|exact S2].
+    - intros x y Hx [<-|Hy]; [apply Hb; exact Hx|apply S12; assumption].
+  Qed.
+
+  Lemma binarysort_dsorted rest : forall pre, dsorted pre -> dsorted (binarysort lt pre rest).
+  Proof.
+    induction rest as [|x rest IH]; intros pre Hs; cbn [binarysort]; [exact Hs|].
+    apply IH. destruct (bisect_spec (S (length pre)) pre x 0 (length pre) Hs) as (_ & Hb & Ha); try lia.
+    - intros y [].
+    - rewrite skipn_all. intros y [].
+    - apply insert_at_dsorted; assumption.
+  Qed.
+
+  (* the initial run *)
+  Fixpoint asc_from (last : A) (l : list A) : Prop :=
+    match l with [] => True | x :: r => d last <= d x /\ asc_from x r end.
+  Fixpoint desc_from (last : A) (l : list A) : Prop :=
+    match l with [] => True | x :: r => d x <= d last /\ desc_from x r end.
+
+  Lemma asc_from_dsorted l : forall a, asc_from a l -> dsorted (a :: l).
+  Proof.
+    induction l as [|x l IH]; intros a H; cbn; [split; [intros y []|exact I]|].
+    destruct H as [Hax Hx]. specialize (IH x Hx). cbn in IH. destruct IH as [Hxl Hl].
+    split; [|split; assumption]. intros y [<-|Hy]; [exact Hax|]. specialize (Hxl y Hy). lia.
+  Qed.
+  Lemma desc_from_rev l : forall a, desc_from a l -> dsorted (rev (a :: l)) /\ (forall y, In y (a :: l) -> d y <= d a).
+  Proof.
+    induction l as [|x l IH]; intros a H.
+    - cbn. split; [split; [intros y []|exact I]|intros y [<-|[]]; lia].
+    - destruct H as [Hxa Hx]. destruct (IH x Hx) as [Hs Hle]. split.
+      + change (rev (a :: x :: l)) with (rev (x :: l) ++ [a]). apply dsorted_app. split; [exact Hs|]. split.
+        * cbn. split; [intros y []|exact I].
+        * intros y z Hy [<-|[]]. apply in_rev in Hy. specialize (Hle y Hy). lia.
+      + intros y [<-|Hy]; [lia|]. specialize (Hle y Hy). lia.
+  Qed.
+
+  Lemma run_asc_asc l : forall last, asc_from last (fst (run_asc lt last l)).
+  Proof.
+    induction l as [|x l IH]; intros last; cbn; [exact I|].
+    destruct (lt x last) eqn:L; [exact I|]. specialize (IH x). destruct (run_asc lt x l). cbn in *. split; [|exact IH].
+    destruct (Nat.le_gt_cases (d last) (d x)) as [H|H]; [exact H|]. rewrite (lt_major _ _ H) in L. discriminate.
+  Qed.
+  Lemma run_desc_desc l : forall last, desc_from last (fst (run_desc lt last l)).
+  Proof.
+    induction l as [|x l IH]; intros last; cbn; [exact I|].
+    destruct (lt x last) eqn:L; [|exact I]. specialize (IH x). destruct (run_desc lt x l). cbn in *. split; [|exact IH].
+    apply lt_minor. exact L.
+  Qed.
+
+  Theorem py_sort_dsorted l : dsorted (py_sort lt l).
+  Proof.
+    destruct l as [|a [|b l]]; cbn [py_sort]; [exact I|split; [intros y []|exact I]|].
+    destruct (lt b a) eqn:L.
+    - pose proof (run_desc_desc l b) as R. destruct (run_desc lt b l) as [r t]. cbn in R.
+      apply binarysort_dsorted.
+      assert (desc_from a (b :: r)) as D by (split; [apply lt_minor; exact L|exact R]).
+      apply (desc_from_rev (b :: r) a D).
+    - pose proof (run_asc_asc l b) as R. destruct (run_asc lt b l) as [r t]. cbn in R.
+      apply binarysort_dsorted. apply (asc_from_dsorted (b :: r) a). split; [|exact R].
+      destruct (Nat.le_gt_cases (d a) (d b)) as [H|H]; [exact H|]. rewrite (lt_major _ _ H) in L. discriminate.
+  Qed.
+End PySortMajor.
+
+(* ================= the code's own sort: the smallest MRO distance always wins ================= *)
+Section FirstExpansion.
+  Variable E : env.
+  Hypothesis order_perm : forall p l, Permutation (e_order E p l) l.
+
+  (* a single-offer answer is the first succeeding complete edge of the first expansion;
+     every other succeeding single candidate comes after it in the sorted edge list *)
+  Lemma first_expansion fuel o : adapt_search E fuel = Found [o] ->
+    exists l1 l2, e_order E [] (filter (usable E []) (e_offers E)) = l1 ++ o :: l2 /\
+      forall o', In o' (e_offers E) -> single_candidate E o' = true -> o' = o \/ In o' l2.
+  Proof.
+    intros H. destruct fuel as [|f]; [discriminate|].
+    unfold adapt_search in H. cbn [search pop_min] in H.
+    set (es := e_order E [] (filter (usable E []) (e_offers E))) in *.
+    destruct (expand E (0, 0, 0) [] es [] 1) as [[[np|] q'] cnt'] eqn:Ex.
+    2:{ pose proof (expand_long E (0, 0, 0) [] es [] 1 (Forall_nil _)) as L. rewrite Ex in L.
+        apply (search_long E order_perm f q' cnt' [o] L) in H. cbn in H. lia. }
+    inversion H; subst np. clear H.
+    destruct (expand_first E _ _ _ _ _ _ _ _ Ex) as (l1 & o0 & l2 & Hes & Hnp & Hl1).
+    cbn in Hnp. inversion Hnp; subst o0. clear Hnp.
+    exists l1, l2. split; [exact Hes|]. intros o' Hin' Hc.
+    unfold single_candidate in Hc. apply andb_true_iff in Hc. destruct Hc as [Hc Hk].
+    apply andb_true_iff in Hc. destruct Hc as [Hu Ht].
+    assert (In o' es) as Hes'.
+    { apply (Permutation_in _ (Permutation_sym (order_perm _ _))). apply filter_In. split; assumption. }
+    rewrite Hes in Hes'. apply in_app_or in Hes'. destruct Hes' as [H1|[<-|H2]].
+    - specialize (Hl1 _ H1). cbn in Hl1. unfold succ in Hl1. cbn in Hl1. rewrite Ht, Hk in Hl1. discriminate.
+    - left. reflexivity.
+    - right. exact H2.
+  Qed.
+End FirstExpansion.
+
+Lemma edge_lt_major sub (x y : nat * offer) : fst x < fst y -> edge_lt sub x y = true.
+Proof. destruct x as [d1 o1], y as [d2 o2]. cbn. intros H. apply Nat.ltb_lt in H. rewrite H. reflexivity. Qed.
+Lemma edge_lt_minor sub (x y : nat * offer) : edge_lt sub x y = true -> fst x <= fst y.
+Proof.
+  destruct x as [d1 o1], y as [d2 o2]. cbn. intros H. apply orb_true_iff in H. destruct H as [H|H].
+  - apply Nat.ltb_lt in H. lia.
+  - apply andb_true_iff in H. destruct H as [H _]. apply andb_true_iff in H. destruct H as [H _]. apply Nat.eqb_eq in H. lia.
+Qed.
+
+Lemma order_py_distance sub dist all cur l l1 o l2 o' :
+  order_py sub dist all cur l = l1 ++ o :: l2 -> In o' l2 -> dist cur (ofrom o) <= dist cur (ofrom o').
+Proof.
+  unfold order_py. set (G := group_by (map ofrom all) l).
+  set (P := py_sort (edge_lt sub) (map (fun o0 => (dist cur (ofrom o0), o0)) G)). intros Hm Hin.
+  assert (forall e, In e P -> fst e = dist cur (ofrom (snd e))) as Hkey.
+  { intros e He. apply (Permutation_in _ (py_sort_perm (edge_lt sub) _)) in He. apply in_map_iff in He.
+    destruct He as (x & <- & _). reflexivity. }
+  pose proof (py_sort_dsorted (edge_lt sub) fst (edge_lt_major sub) (edge_lt_minor sub)
+                (map (fun o0 => (dist cur (ofrom o0), o0)) G)) as Hs. fold P in Hs.
+  apply map_eq_app in Hm. destruct Hm as (P1 & P2' & HP & _ & Hm2).
+  apply map_eq_cons in Hm2. destruct Hm2 as (e & P2 & -> & He & Hm3).
+  rewrite HP in Hs. apply dsorted_app in Hs. destruct Hs as (_ & Hs & _). cbn in Hs. destruct Hs as [Hs _].
+  rewrite <- Hm3 in Hin. apply in_map_iff in Hin. destruct Hin as (e' & He' & Hin').
+  specialize (Hs e' Hin').
+  rewrite (Hkey e), (Hkey e') in Hs.
+  - rewrite He, He' in Hs. exact Hs.
+  - rewrite HP. apply in_or_app. right. right. exact Hin'.
+  - rewrite HP. apply in_or_app. right. left. reflexivity.
+Qed.
+
+(* for the executable model (edge order = CPython's sort on the code's comparator): a single-step answer has the
+   smallest MRO distance among all succeeding single-offer chains — no hypothesis; only the specificity tie-break
+   is affected by F17 *)
+Lemma min_distance_first_exec c fuel o : adapt (env_of c) fuel = RAdapter [o] ->
+  forall o', In o' (e_offers (env_of c)) -> single_candidate (env_of c) o' = true ->
+    e_dist (env_of c) (e_src (env_of c)) (ofrom o) <= e_dist (env_of c) (e_src (env_of c)) (ofrom o').
+Proof.
+  intros Ha o' Hin Hc.
+  assert (adapt_search (env_of c) fuel = Found [o]) as Hf.
+  { unfold adapt in Ha. destruct (e_sub (env_of c) (e_src (env_of c)) (e_target (env_of c))); [discriminate|].
+    destruct (adapt_search (env_of c) fuel); congruence. }
+  destruct (first_expansion (env_of c) (env_of_order_perm c) fuel o Hf) as (l1 & l2 & Hes & Hall).
+  destruct (Hall o' Hin Hc) as [->|H2]; [lia|].
+  cbn [e_order env_of] in Hes. cbn [rev] in Hes.
+  exact (order_py_distance _ _ _ _ _ _ _ _ _ Hes H2).
+Qed.
